@@ -131,3 +131,12 @@ let () =
              | CViewRaw -> [sb; s; from; until; arch; hdr; sort; to_]) in
          obs "cliargs run %s" (String.concat " " fields))
     | _ -> failwith "cliargs")
+
+(* pathclean HEX / pathjoin HEX... : Model/Path.v against path.Clean, filepath.Clean and filepath.Join *)
+let () =
+  register "pathclean" (fun tk -> match tk with
+    | [_; h] -> let c = hex_of_bytes (path_clean (bytes_of_hex h)) in obs "pathclean %s %s" c c
+    | _ -> failwith "pathclean");
+  register "pathjoin" (fun tk -> match tk with
+    | _ :: hs -> obs "pathjoin %s" (hex_of_bytes (path_join (List.map bytes_of_hex hs)))
+    | _ -> failwith "pathjoin")
